@@ -168,6 +168,41 @@ fn lex_lt(a: &[bool], b: &[bool]) -> bool {
     a < b
 }
 
+/// An IdpfInput equal to `prefix` whose bit storage starts `offset` bits into a word (public `From<BitBox>`).
+fn unaligned(prefix: &[bool], offset: usize) -> IdpfInput {
+    use bitvec::prelude::*;
+    let mut bv: BitVec<usize, Lsb0> = BitVec::new();
+    for i in 0..offset {
+        bv.push(i % 2 == 0);
+    }
+    bv.extend(prefix.iter().copied());
+    let bb: BitBox<usize, Lsb0> = BitBox::from_bitslice(&bv[offset..]);
+    IdpfInput::from(bb)
+}
+
+/// The aligned and the unaligned construction of the same prefix list must agree: same verdict, equal
+/// values, identical encodings, identical admissibility answers.
+fn twin_check(run: &Run, ps: &[&Vec<bool>], aligned: &Result<Poplar1AggregationParam, String>) {
+    let offs = [3usize, 0, 1, 7, 5];
+    let res = catch(|| Poplar1AggregationParam::try_from_prefixes(ps.iter().enumerate().map(|(j, b)| unaligned(b, offs[j % 5])).collect()));
+    run.count("evaluations", 1);
+    run.count("unaligned_twins", 1);
+    let case = json!({"prefixes": ps, "storage_offsets": offs});
+    match (res, aligned) {
+        (Err(m), _) => run.fail("try_from_prefixes/unaligned/panic", &format!("try_from_prefixes panicked on unaligned storage of {:?}: {m}", ps), case),
+        (Ok(Err(_)), Err(_)) => {}
+        (Ok(Ok(u)), Ok(a)) => {
+            let (ue, ae) = (catch(|| u.get_encoded()), a.get_encoded());
+            let same_enc = matches!((&ue, &ae), (Ok(Ok(x)), Ok(y)) if x == y);
+            let same_valid = Pop::is_agg_param_valid(&u, std::slice::from_ref(a)) == Pop::is_agg_param_valid(a, std::slice::from_ref(a)) && Pop::is_agg_param_valid(a, std::slice::from_ref(&u)) == Pop::is_agg_param_valid(a, std::slice::from_ref(a));
+            if u != *a || !same_enc || u.level() != a.level() || u.prefixes() != a.prefixes() || !same_valid {
+                run.fail("try_from_prefixes/unaligned/differs", &format!("the aggregation parameter built from unaligned storage of {:?} differs from the aligned one (equal: {}, same encoding: {same_enc}, same admissibility answers: {same_valid})", ps, u == *a), case);
+            }
+        }
+        (Ok(r), _) => run.fail("try_from_prefixes/unaligned/verdict", &format!("try_from_prefixes({:?}) from unaligned storage = {}, from aligned storage = {}", ps, if r.is_ok() { "Ok" } else { "Err" }, if aligned.is_ok() { "Ok" } else { "Err" }), case),
+    }
+}
+
 fn constructor(run: &Run, max_list: usize) {
     // all prefixes of length 0..=3
     let mut pool: Vec<Vec<bool>> = vec![vec![]];
@@ -198,6 +233,11 @@ fn constructor(run: &Run, max_list: usize) {
         run.count("evaluations", 1);
         run.count("constructor_lists", 1);
         let case = json!({"prefixes": ps});
+        if let Ok(r) = &res {
+            if !ps.is_empty() {
+                twin_check(run, &ps, &r.as_ref().map(|p| p.clone()).map_err(|e| e.to_string()));
+            }
+        }
         match res {
             Err(m) => run.fail("try_from_prefixes/panic", &format!("try_from_prefixes panicked on {:?}: {m}", ps), case),
             Ok(r) => {
@@ -211,6 +251,19 @@ fn constructor(run: &Run, max_list: usize) {
                 }
             }
         }
+    }
+    // longer prefixes across byte and word boundaries, aligned vs unaligned storage
+    for len in [7usize, 8, 9, 15, 16, 17, 31, 32, 33, 63, 64, 65, 127, 128, 129] {
+        let a: Vec<bool> = (0..len).map(|i| i % 3 == 0).collect();
+        let mut b = a.clone();
+        b[len - 1] = !b[len - 1];
+        let mut c = a.clone();
+        c[0] = !c[0];
+        let mut set = vec![a, b, c];
+        set.sort();
+        let ps: Vec<&Vec<bool>> = set.iter().collect();
+        let r = Poplar1AggregationParam::try_from_prefixes(ps.iter().map(|b| IdpfInput::from_bools(b)).collect()).map_err(|e| e.to_string());
+        twin_check(run, &ps, &r);
     }
     // size limits: prefixes of 65536 bits are the longest admissible (level 65535); 65537 is not
     for (len, want) in [(65535usize, true), (65536, true), (65537, false), (70000, false)] {
